@@ -41,7 +41,7 @@ CHECKS.update({
         note='Bounded models (<= 2 threads, <= 2 chunks). Device orderings limited to those adbd can produce (OKAY(k) before reply(k)). Trusted: ' + TB),
     'C06': dict(
         level='model_checking', design='5/C06',
-        technique='TLC on AdbHost (intended vs as-built deviation constants; safety, deadlock, liveness under WF); transition tour replay into real threads and asyncio tasks; random real-code schedules validated against TraceEnv with the K1 history signature',
+        technique='TLC on AdbHost (intended vs as-built deviation constants; safety, deadlock, liveness under WF); transition tour replay into real threads and asyncio tasks; random real-code schedules validated against TraceEnv with the K1 history signature; design spec AdbCancel (a task cancelled at a message boundary loses nothing) with a canceller that takes every event-loop turn on the code',
         text='Exhaustive exploration of 2-3 concurrent operations at critical-section granularity on the design; every edge of the as-built 2-thread graph replayed on the real code with state comparison; '
              'independent schedule exploration of the real code (uniform / sticky / PCT-style schedules; extra preemption points at writes, local I/O and every line of the store and read(); faults and short writes; generators interleaved in one thread, across reconnects, two device objects, GC inside reads) judged by the Layer-A monitor. K1 was found by this check and fixed (KNOWN_FINDINGS.txt).',
         note='The exhaustive part is at critical-section granularity (design + tour); finer preemption is explored by sampling, not exhaustively. Trusted: ' + TB + '; the scheduler runs one thread at a time.'),
@@ -65,15 +65,15 @@ CHECKS.update({
         text='Every TLC layout as a listing, stat at all 15 offsets and 27 boundary-value triples, random listings up to 300 entries with arbitrary name bytes and 32-bit fields under arbitrary packetisation.',
         note='Names compared as bytes. Trusted: ' + TB),
     'C10': dict(level='model_checking', design='5/C10',
-        technique='AdbHost with rejected multi-WRITE pushes (FAIL free to overtake later OKAYs) explored by TLC, intended vs DEV_F5; tour replay; grid of rejection point x size x ordering x reason x packetisation on sync+async validated by SyncMon/TraceSync',
+        technique='AdbHost with rejected multi-WRITE pushes (FAIL free to overtake later OKAYs) explored by TLC, intended vs DEV_F5; tour replay; grid of rejection point x size x ordering x reason x packetisation on sync+async validated by SyncMon/TraceSync; record-level design spec AdbSyncOp (stat / list / pull / push against every reply script, silence, a failing sink), every row replayed on the code',
         text='Design: no stuck state and the FAIL is delivered for every ordering; code: every rejected transfer ends in the documented exception carrying the reason, never a success, never a timeout. F5 was found by this check and fixed (KNOWN_FINDINGS.txt).',
         note='Status ids restricted to FILESYNC_IDS; reorderings restricted to what adbd can produce. Trusted: ' + TB),
     'C13': dict(level='model_checking', design='5/C13',
-        technique='life-cycle spec AdbApi (availability, one-call operations, the streaming generator, failing close, connect attempts ended by any exception) explored by TLC; its labelled graph walked on fresh sync+async device objects for every letter sequence (full alphabet to length 3/4, operation classes to 4/6), the set of possible model states carried along',
+        technique='life-cycle spec AdbApi (availability, one-call operations, the streaming generator, failing close, connect attempts ended by any exception) explored by TLC; its labelled graph walked on fresh sync+async device objects for every letter sequence (full alphabet to length 3/4, operation classes to 4/6), the set of possible model states carried along; design spec AdbCloseRace (close() racing with operations, conjoined with the Layer-A monitor) and random schedules of the real code racing operations against close()',
         text='Outcome class, whether the transport was asked to write, .available (also sampled at every transport call of a connect attempt) and local files compared with the model edges after every step of every sequence; model-edge coverage reported.',
         note='Trusted: ' + TB),
     'C14': dict(level='model_checking', design='5/C14',
-        technique='AdbAlloc (one action per source line of the id allocation block) explored by TLC with lock / sanity mutation without; model paths replayed with sys.settrace line-level preemption; exhaustive line-level DFS of the real block judged by the C14 clauses of TraceEnv',
+        technique='AdbAlloc (one action per source line of the id allocation block) explored by TLC with lock / sanity mutation without; model paths replayed with sys.settrace line-level preemption; exhaustive line-level DFS of the real block judged by the C14 clauses of TraceEnv; opens that fail after taking their id (design: ids are spent, never handed back; code: refused OPENs and raising calls overlapped by other opens)',
         text='IdRange and UniqueLive for 2-3 concurrent opens and counters at 0, M-3..M-1; every model path replayed on real threads; all line-level interleavings of two real _open calls (and random ones of three) near 0 and 2^32 judged on the OPEN packets on the wire.',
         note='Line-level interleavings exhaustively (2 threads); bytecode-level with one preemption at every instruction of _open. Trusted: ' + TB + '; sys.settrace.'),
 })
@@ -84,15 +84,15 @@ CHECKS.update({
         text='NoOverRead/ExactReassembly/CorruptNeverDelivered/RightError on the design for good, corrupt and unknown-command packets; every edge of the read graphs of a connect+shell exchange replayed on sync+async; every read of random sessions judged against the frame boundary; all single-bit/byte corruptions of a 64-byte payload; unknown command words incl. all single-bit neighbours of the known ones.',
         note='Scaled tour (model header byte = 8 real bytes). Trusted: ' + TB),
     'C11': dict(level='model_checking', design='5/C11',
-        technique='design spec AdbTimed (deadline checks, timeout normalisation) explored by TLC against the most general stalling adversary, tight constant computed (K=3 holds, K=2 fails); every operation x await point x stall kind x timeout grid run under a virtual clock and validated against TraceTimed',
+        technique='design spec AdbTimed (deadline checks, timeout normalisation) explored by TLC against the most general stalling adversary, tight constant computed (K=3 holds, K=2 fails), the converse bound NotEarly with ghost timers; every operation x await point x stall kind x timeout grid run under a virtual clock and validated against TraceTimed',
         text='Bounded/Ordered/RightError on the design; on the code every packet an operation awaits is withheld in turn under five stall kinds and a grid including None, 0 and negatives; elapsed virtual time, error class, fabricated results and the timeout of every transport call are judged. F6 (pull+callback ignoring its timeouts) was found by this check and fixed.',
         note='Virtual clock (every transport call costs 10 ms); K=6/12 on the code vs K=3 in the model. Trusted: ' + TB),
     'C12': dict(level='fault_enumeration', design='5/C12',
-        technique='design spec AdbRecover (with-block lock discipline, clearing on connect/close, session epochs) explored by TLC with two sanity mutations; exhaustive injection of every fault kind at every transport-call index of a scenario covering all operations, then close/reconnect/replay, validated against TraceRecover',
+        technique='design spec AdbRecover (with-block lock discipline, clearing on connect/close, session epochs) explored by TLC with sanity mutations; exhaustive injection of every fault kind at every transport-call index of a scenario covering all operations, then close/reconnect/replay, validated against TraceRecover',
         text='Every index k of the ~115 transport calls x {timeout, reset, end-of-stream} x {sync, async} (thorough: random pairs, faults during recovery): the faulted operation raises or returns the right value, no lock stays held (detector locks), close completes, reconnect succeeds, the replayed scenario gives the fault-free results.',
         note='One scenario shape; the session is closed after the faulted operation. Trusted: ' + TB),
     'C15': dict(level='model_checking', design='5/C15',
-        technique='design spec AdbWriter (resubmit the remainder vs. deviation IgnoreShortWrite) explored by TLC; every capacity sequence over {1,2,half,len-1,len} up to 4 calls and random capacities on the in-memory transport, plus real loopback TCP with 4 KiB buffers and a slow reader, the peer-side byte stream judged by the frame clauses of TraceEnv',
+        technique='design spec AdbWriter (two writers, resubmission of the remainder, failing writes, a transport that transmits the queued object later; sanity mutations IgnoreShortWrite, ResubmitStale, LockPerCall, ReuseHeader) explored by TLC; every capacity sequence over {1,2,half,len-1,len} up to 4 calls and random capacities on the in-memory transport, plus real loopback TCP with 4 KiB buffers and a slow reader, the peer-side byte stream judged by the frame clauses of TraceEnv',
         text='PeerGetsAll/InOrderNoGap on the design; on the code a gap or truncation is recognised on the peer side by an independent frame parser; large pushes over a real non-blocking socket must arrive intact. F1 was found by this check and fixed.',
         note='Loopback runs use real time but judge only byte-stream integrity. Trusted: ' + TB + '; the kernel TCP stack.'),
     'C16': dict(level='translation_validation', design='5/C16',
